@@ -5,6 +5,7 @@ dispatch to).  The wrapped model is a harness function returning, for grid size 
 sum_{d<k} c_d * x_k**d with *symbolic* distinct x_k and symbolic coefficient arrays.
 """
 import itertools
+from fractions import Fraction as Fr
 
 import numpy as np
 
@@ -249,6 +250,44 @@ def misc_body(env):
     env.same('scalar pts', np.asarray(r), c)
 
 
+def make_intx_body(k, mode):
+    """extrap_x_l given as exact Python integers (legal: the x values only need to be proportional to the grid spacing).
+    CONCRETE unit (enumeration, labelled as such): with integer x the real code forms its Lagrange weights in floating
+    point, so the claim is numerical: for each monomial x^d, d < k, the extrapolated value is the constant term (1 for
+    d = 0, 0 otherwise) within 1e-9 of the data scale, in linear and log mode."""
+    def body(env):
+        import math
+        from dadi import Numerics
+        xi = [840 // (10 * (i + 1)) if 840 % (10 * (i + 1)) == 0 else 97 - 7 * i for i in range(k)]   # distinct ints
+        # concrete unit: the real numpy inside Numerics (dtypes matter here), not the symbolic run's shim and stubs
+        saved = Numerics.numpy
+        Numerics.numpy = np
+        try:
+            _intx_run(env, Numerics, k, mode, xi)
+        finally:
+            Numerics.numpy = saved
+    return body
+
+
+def _intx_run(env, Numerics, k, mode, xi):
+    if True:
+        for d in range(k):
+            def model(dummy, pts, d=d):
+                x = float(xi[pts // 10 - 1])
+                v = np.array([5.0 + (x / 100.0) ** d, 7.0 + (x / 100.0) ** d])     # away from 0: no fall-back
+                return np.exp(v) if mode == 'log' else v
+            mk = Numerics.make_extrap_log_func if mode == 'log' else Numerics.make_extrap_func
+            f = mk(model, extrap_x_l=[int(v) for v in xi])
+            with np.errstate(all='ignore'):
+                res = np.asarray(f(7, [10 * (i + 1) for i in range(k)]), dtype=float)
+            want = np.array([6.0 if d == 0 else 5.0, 8.0 if d == 0 else 7.0])
+            if mode == 'log':
+                want = np.exp(want)
+            for j in range(2):
+                env.holds('monomial x^%d entry %d: got %r want %r' % (d, j, float(res[j]), float(want[j])),
+                          bool(abs(res[j] - want[j]) <= 1e-9 * max(1.0, abs(want[j]))))
+
+
 def make_labels_log_body(k, shape, folded):
     """Log variant with a Spectrum-valued model: attributes only (labels, type, folding flag, mask).  Entries are fresh
     positive reals, so numpy.ma's domain masking of log never triggers and no value claim is made."""
@@ -316,5 +355,9 @@ def units(tier, seed):
                              params=dict(k=k, n=2, mode=mode, valued=valued, perm=list(perm), reuse=True), setup=_setup,
                              min_obligations=2, timeout_s=900 if tier == 'thorough' else 400, maxpaths=4000,
                              query_timeout_ms=120000))
+    for k in range(2, 7):
+        for mode in (('lin', 'log') if (tier == 'thorough' or k >= 5) else ('lin',)):
+            us.append(H.Unit('intx-k%d-%s' % (k, mode), make_intx_body(k, mode), params=dict(k=k, mode=mode, x='python ints'),
+                             setup=_setup, min_obligations=2, timeout_s=400, maxpaths=4000, query_timeout_ms=120000))
     us.append(H.Unit('misc-reject-kw', misc_body, setup=_setup, min_obligations=6))
     return us
